@@ -9,6 +9,7 @@ import (
 	"bytes"
 	"fmt"
 	"strings"
+	"sync"
 
 	rhpack "github.com/wi1dcard/fingerproxy/pkg/http2/hpack"
 	xhpack "golang.org/x/net/http2/hpack"
@@ -96,7 +97,11 @@ func drawC18(t *rapid.T) *Case {
 			}
 			ops = append(ops, op)
 		default:
-			ops = append(ops, c18Op{Kind: "garbage", Raw: rapid.SliceOfN(rapid.Byte(), 0, 60).Draw(t, "raw"), Cuts: drawCuts(t, "gcuts")})
+			raw := rapid.SliceOfN(rapid.Byte(), 0, 60).Draw(t, "raw")
+			if drawBool(t, "program", 60) {
+				raw = drawHpackProgram(t)
+			}
+			ops = append(ops, c18Op{Kind: "garbage", Raw: raw, Cuts: drawCuts(t, "gcuts")})
 		}
 	}
 	c := &Case{}
@@ -122,6 +127,78 @@ func drawC18(t *rapid.T) *Case {
 		return vs
 	}
 	return c
+}
+
+// drawHpackProgram: a byte string made of well-formed HPACK instructions that no encoder
+// of this package would emit in that combination: table size updates anywhere, literals
+// with incremental indexing that are larger than the table (RFC 7541 4.4: the table is
+// emptied), index references into the dynamic table (valid, stale or beyond its end),
+// indexed names, never-indexed literals, Huffman-flagged strings of arbitrary bytes.
+func drawHpackProgram(t *rapid.T) []byte {
+	var out []byte
+	varint := func(prefixBits int, first byte, v int) {
+		max := 1<<prefixBits - 1
+		if v < max {
+			out = append(out, first|byte(v))
+			return
+		}
+		out = append(out, first|byte(max))
+		v -= max
+		for v >= 128 {
+			out = append(out, byte(v%128+128))
+			v /= 128
+		}
+		out = append(out, byte(v))
+	}
+	str := func(label string) {
+		n := []int{0, 1, 3, 10, 30, 33, 70, 200}[rapid.IntRange(0, 7).Draw(t, label+"len")]
+		h := byte(0)
+		if drawBool(t, label+"huff", 15) {
+			h = 0x80
+		}
+		varint(7, h, n)
+		for i := 0; i < n; i++ {
+			if h != 0 {
+				out = append(out, byte(rapid.IntRange(0, 255).Draw(t, label+"hb")))
+			} else {
+				out = append(out, byte('a'+(i+n)%26))
+			}
+		}
+	}
+	idx := func(label string) int {
+		return []int{1, 2, 15, 61, 62, 62, 63, 64, 70}[rapid.IntRange(0, 8).Draw(t, label)]
+	}
+	n := rapid.IntRange(1, 8).Draw(t, "ninstr")
+	for i := 0; i < n; i++ {
+		switch rapid.IntRange(0, 6).Draw(t, "instr") {
+		case 0:
+			varint(5, 0x20, []int{0, 1, 31, 32, 64, 100, 4096, 4097}[rapid.IntRange(0, 7).Draw(t, "szupd")])
+		case 1, 2:
+			// literal with incremental indexing, new name
+			out = append(out, 0x40)
+			str("n")
+			str("v")
+		case 3:
+			// literal with incremental indexing, indexed name
+			varint(6, 0x40, idx("iname"))
+			str("v")
+		case 4:
+			varint(7, 0x80, idx("iref"))
+		case 5:
+			// literal without indexing / never indexed
+			first := []byte{0x00, 0x10}[rapid.IntRange(0, 1).Draw(t, "noidx")]
+			if drawBool(t, "noidxname", 50) {
+				varint(4, first, idx("nname"))
+			} else {
+				out = append(out, first)
+				str("n")
+			}
+			str("v")
+		case 6:
+			varint(7, 0x80, rapid.IntRange(0, 80).Draw(t, "anyidx"))
+		}
+	}
+	return out
 }
 
 type emitRec struct {
@@ -156,8 +233,65 @@ func sameFields(a, b []rhpack.HeaderField) bool {
 	return true
 }
 
+var c18RaceOnce sync.Once
+
+// c18ConcurrentFirstUse (race worker only): several independent encoder / decoder pairs
+// take their first Huffman-coded block at the same time.  Codec instances share nothing a
+// caller can see; whatever the package initialises lazily behind them must be safe for
+// that.  A wrong result is a violation; an unsynchronised access is reported by the race
+// detector whichever way the result comes out.
+func c18ConcurrentFirstUse() (vs []Violation) {
+	const n = 8
+	errs := make([]string, n)
+	var wg sync.WaitGroup
+	start := make(chan struct{})
+	for i := 0; i < n; i++ {
+		wg.Add(1)
+		go func(i int) {
+			defer wg.Done()
+			<-start
+			var buf bytes.Buffer
+			enc := rhpack.NewEncoder(&buf)
+			want := []rhpack.HeaderField{{Name: "x-first-use", Value: fmt.Sprintf("www.example.com/%d/huffman-coded-value", i)}, {Name: ":path", Value: "/index.html"}}
+			for _, f := range want {
+				enc.WriteField(f)
+			}
+			var got []rhpack.HeaderField
+			dec := rhpack.NewDecoder(4096, func(f rhpack.HeaderField) { got = append(got, f) })
+			if _, err := dec.Write(buf.Bytes()); err != nil {
+				errs[i] = err.Error()
+				return
+			}
+			if err := dec.Close(); err != nil {
+				errs[i] = err.Error()
+				return
+			}
+			if !sameFields(got, want) {
+				errs[i] = fmt.Sprintf("decoded %v, want %v", got, want)
+			}
+		}(i)
+	}
+	close(start)
+	wg.Wait()
+	for i, e := range errs {
+		if e != "" {
+			vs = append(vs, Violation{"concurrent_first_use", "concurrent_first_use", fmt.Sprintf("decoder %d of %d that took their first Huffman-coded block concurrently: %s", i, n, e)})
+		}
+	}
+	return
+}
+
 func runC18(initial uint32, ops []c18Op) (vs []Violation, stats map[string]int) {
 	stats = map[string]int{}
+	if raceMode() {
+		c18RaceOnce.Do(func() {
+			vs = append(vs, c18ConcurrentFirstUse()...)
+			stats["concurrent_first_use"]++
+		})
+		if len(vs) > 0 {
+			return
+		}
+	}
 	bad := func(class, format string, args ...any) {
 		vs = append(vs, Violation{class, class, fmt.Sprintf(format, args...)})
 	}
